@@ -690,8 +690,9 @@ Definition do_revoke (s : chain) (granter grantee kind : Z) : option chain :=
 Definition set_bank (s : chain) (b : bank) : chain :=
   chain_upd s b (c_ms s) (c_mqueue s) (c_bqueue s) (c_betcnt s) (c_uid2id s) (c_settledix s) (c_grants s).
 
+(* bank MsgSend; every module account of the model (ids < 0) is a blocked recipient (Gen/perms.v) *)
 Definition do_send (s : chain) (from to amt : Z) : option chain :=
-  if amt <=? 0 then None else
+  if amt <=? 0 then None else if to <? 0 then None else
   match pay (c_bank s) from to amt with
   | None => None
   | Some b => Some (set_bank s b)
